@@ -210,7 +210,7 @@ impl Scenario for C15 {
     const ID: &'static str = "C15";
     const LEVEL: &'static str = "fault_enumeration";
     fn runs(tier: Tier) -> u64 {
-        tier.pick(4_000, 300_000)
+        tier.pick(120_000, 8_000_000)
     }
     fn profiles() -> &'static [Profile] {
         &[Profile::Release]
@@ -541,7 +541,7 @@ impl Scenario for C20 {
     const ID: &'static str = "C20";
     const LEVEL: &'static str = "fault_enumeration";
     fn runs(tier: Tier) -> u64 {
-        tier.pick(4_000, 300_000)
+        tier.pick(120_000, 8_000_000)
     }
     fn profiles() -> &'static [Profile] {
         &[Profile::Release]
